@@ -17,8 +17,10 @@ TRUSTED_BASE = [
     "Coq 8.16.1 kernel (coqc); vm_compute for the two obligations on the regenerated lock summary; no native_compute",
     "translator tools/gen_locks.py (Python ast -> Gen/LockSummary.v, fails closed on unknown constructs); it flattens "
     "control flow in source order, which over-approximates the set of accesses made under each lock",
-    "NOT mechanised: the reduction from 'every access is inside the critical section of its lock + mutual exclusion' to "
-    "'critical sections behave atomically' (standard Lipton-style argument), CPython's bytecode-level switch points "
+    "mechanised (Base/Atomic.v, for every write function of the reads): a closed critical section computes what its body "
+    "computes alone; the sections of sequence_number_lock, ego_position_vector_lock, loc_t_lock and the per-entry locks are "
+    "closed; _cbf_lock and _ls_lock sections (which read the location table under the nested loc_t_lock) get isolation only. "
+    "NOT mechanised: the correspondence between source lines and the abstract Rd/Wr actions, CPython's bytecode-level switch points "
     "(C-implemented dict/deque operations are atomic under the GIL), threading.Timer start-up latency, lock fairness",
     "run-time part: harness/sched.py replaces threading.Lock/RLock in the router and location-table modules by "
     "cooperative locks and parks threads at every source line of those modules (sys.settrace); line granularity",
